@@ -39,7 +39,8 @@ CrossFails(e) ==
   IF ~e.fungible THEN {}
   ELSE LET Sa == T(e.a)
            Sb == T(e.b) IN
-  IF e.stA # 0 THEN {}                        \* not an encodable A value
+  \* a value of A that the format can express must be written (only a non-encodable value may be refused)
+  IF e.stA # 0 THEN Tag(EncR(Sa, e.v, RealCtx(<<>>), 1).err # 0, "encodable-value-refused")
   ELSE LET d == Dec(Sb, Src(e.bytes), 0, Inf) IN
     IF d.ok
     THEN Tag(e.stB = 0, "rejected-by-B")
